@@ -738,7 +738,10 @@ func TestCheck(t *testing.T) {
 			}
 			cfgs := configs(b)
 			// every family gets an equal share of what is left; the last one gets all of it
-			dl := time.Now().Add(time.Until(env.Deadline) / time.Duration(len(fams)-fi))
+			dl := env.Deadline
+			if env.Thorough() {
+				dl = time.Now().Add(time.Until(env.Deadline) / time.Duration(len(fams)-fi))
+			}
 			stt := explore.Run(mkBody(b, cfgs), explore.Options{Workers: env.Workers, Deadline: dl, Setup: setup, Samples: 2, MaxViol: 40})
 			evals += stt.Executions
 			distinct += stt.Outcomes
